@@ -827,6 +827,290 @@ def oracle_2d(ctx, budget):
             ctx.fail(err[0], err[1] + f' [family {fam}, num_knots {nks}, degree {ks}, N {len(x)}, M {len(z)}]', case)
 
 
+# ------------------------------------------------------------------------------ 2-D normal equations (B'WB, B'Wy)
+W2D_FAMILIES = ['ones', 'const-half', 'const-small', 'const-big', 'const-zero', 'const-random', 'near-const', 'one-off',
+                'separable', 'row-const', 'mask', 'random', 'random-zeros', 'decades']
+
+
+def gen_w2d(rng, fam, shape):
+    """Weight matrices for the 2-D system.  Constant-but-not-one, exactly-zero, nearly-constant and constant-except-one-entry
+    families sit next to the ordinary ones: nothing in the assembly may depend on the weights *looking* uniform."""
+    if fam == 'ones':
+        return np.ones(shape)
+    if fam == 'const-half':
+        return np.full(shape, 0.5)
+    if fam == 'const-small':
+        return np.full(shape, 1e-3)
+    if fam == 'const-big':
+        return np.full(shape, 7.0)
+    if fam == 'const-zero':
+        return np.zeros(shape)
+    if fam == 'const-random':
+        return np.full(shape, float(10.0 ** rng.uniform(-6, 6)) * float(rng.choice([1.0, 1.0, -1.0])))
+    if fam == 'near-const':
+        c = float(rng.choice([1.0, 0.5, 3.0]))
+        return c * (1 + float(10.0 ** rng.integers(-14, -5)) * rng.uniform(-1, 1, shape))
+    if fam == 'one-off':
+        w = np.full(shape, float(rng.choice([1.0, 0.25, 2.0])))
+        w[int(rng.integers(shape[0])), int(rng.integers(shape[1]))] *= float(rng.choice([0.0, 0.5, 1 + 1e-9, 10.0]))
+        return w
+    if fam == 'separable':
+        return np.outer(rng.random(shape[0]) + 0.1, rng.random(shape[1]) + 0.1)
+    if fam == 'row-const':
+        return np.repeat((rng.random(shape[0]) + 0.1)[:, None], shape[1], axis=1)
+    if fam == 'mask':
+        return (rng.random(shape) < 0.6).astype(float)
+    if fam == 'random-zeros':
+        w = rng.random(shape)
+        w[rng.random(shape) < 0.4] = 0.0
+        return w
+    if fam == 'decades':
+        return rng.random(shape) * 10.0 ** rng.integers(-6, 7, shape)
+    return rng.random(shape) + 0.01
+
+
+def check_btwb_2d(x, z, nks, ks, W, y, lam=(1.0, 1.0), diff_order=(2, 2)):
+    """SplineBasis2D._make_btwb(W) and the system PSpline2D.solve hands to spsolve, against the explicit dense
+    (B_r kron B_c)' diag(vec W) (B_r kron B_c) (+ penalty) and (B_r kron B_c)' (W o y), with the reference bases of x and z."""
+    from pybaselines.two_d import _spline_utils as S2
+    sb = S2.SplineBasis2D(x, z, nks, ks)
+    Br = dense_ref(x, sb.knots_r, ks[0])
+    Bc = dense_ref(z, sb.knots_c, ks[1])
+    B = np.kron(Br, Bc)
+    ref_F = B.T @ (W.ravel()[:, None] * B)
+    scale = max(1.0, np.abs(ref_F).max(), np.abs(B.T @ B).max() * 1e-3)
+    F = sb._make_btwb(W)
+    F = F.toarray() if hasattr(F, 'toarray') else np.asarray(F)
+    if F.shape != ref_F.shape:
+        return 'btwb2d:shape', f'_make_btwb returned shape {F.shape} instead of {ref_F.shape}'
+    if np.abs(F - ref_F).max() > 1e-9 * scale:
+        i, j = np.unravel_index(int(np.argmax(np.abs(F - ref_F))), F.shape)
+        return 'btwb2d:btwb', (f'SplineBasis2D._make_btwb entry ({i},{j}) = {F[i, j]!r} but (B_r kron B_c)\' W (B_r kron B_c) = '
+                               f'{ref_F[i, j]!r} (weights min {W.min()!r} max {W.max()!r})')
+    P, Q = Br.shape[1], Bc.shape[1]
+    d0, d1 = min(diff_order[0], P - 1), min(diff_order[1], Q - 1)
+    if d0 < 1 or d1 < 1:
+        return None
+    ps = S2.PSpline2D(sb, lam=lam, diff_order=(d0, d1))
+    got = {}
+    real = S2.spsolve
+
+    def capture(lhs, rhs, *a, **kw):
+        got['lhs'] = lhs.toarray() if hasattr(lhs, 'toarray') else np.array(lhs, dtype=float)
+        got['rhs'] = np.array(rhs, dtype=float).ravel()
+        return np.zeros(len(got['rhs']))
+
+    S2.spsolve = capture
+    try:
+        with warnings.catch_warnings():
+            warnings.simplefilter('ignore')
+            ps.solve(y, W)
+    finally:
+        S2.spsolve = real
+    Dr = np.diff(np.eye(P), d0, axis=0)
+    Dc = np.diff(np.eye(Q), d1, axis=0)
+    pen = lam[0] * np.kron(Dr.T @ Dr, np.eye(Q)) + lam[1] * np.kron(np.eye(P), Dc.T @ Dc)
+    ref_lhs = ref_F + pen
+    ref_rhs = B.T @ (W * y).ravel()
+    sc = max(1.0, np.abs(ref_lhs).max())
+    if got['lhs'].shape != ref_lhs.shape or np.abs(got['lhs'] - ref_lhs).max() > 1e-9 * sc:
+        return 'btwb2d:solve-lhs', ('PSpline2D.solve: the matrix handed to the solver differs from B\'WB + penalty built explicitly '
+                                    f'(max abs difference {np.abs(got["lhs"] - ref_lhs).max() if got["lhs"].shape == ref_lhs.shape else "shape"})')
+    if got['rhs'].shape != ref_rhs.shape or np.abs(got['rhs'] - ref_rhs).max() > 1e-9 * max(1.0, np.abs(ref_rhs).max()):
+        return 'btwb2d:solve-rhs', 'PSpline2D.solve: the right-hand side differs from B\'Wy built explicitly'
+    return None
+
+
+def oracle_btwb_2d(ctx, budget):
+    rng = np.random.default_rng(ctx.seed + 2525)
+    n = 42 * budget
+    for c in range(n):
+        fam, x, z, nks, ks = gen_2d(rng, c * 3 + 1)
+        # keep the dense Kronecker reference small
+        x, z = x[:14], z[:12]
+        if len(x) < 2 or len(z) < 2 or x.min() == x.max() or z.min() == z.max():
+            continue
+        nks = (min(nks[0], 6), min(nks[1], 5))
+        ks = (min(ks[0], 3), min(ks[1], 3))
+        wf = W2D_FAMILIES[c % len(W2D_FAMILIES)]
+        W = gen_w2d(rng, wf, (len(x), len(z)))
+        y = rng.normal(0, 1, (len(x), len(z)))
+        lam = (float(10.0 ** rng.integers(-2, 3)), float(10.0 ** rng.integers(-2, 3)))
+        case = {'kind': 'btwb2d', 'x': x.tolist(), 'z': z.tolist(), 'num_knots': list(nks), 'degree': list(ks),
+                'weights': W.tolist(), 'y': y.tolist(), 'lam': list(lam), 'weight_family': wf}
+        ctx.case(('btwb2d', wf, x.tobytes(), z.tobytes(), nks, ks, W.tobytes()), nontrivial=True, kind=f'oracle-btwb2d:{wf}')
+        try:
+            err = check_btwb_2d(x, z, nks, ks, W, y, lam)
+        except Exception as exc:  # noqa
+            err = (f'btwb2d:exception:{type(exc).__name__}', f'2-D normal equations raised {type(exc).__name__}: {exc}')
+        if err:
+            ctx.fail(err[0], err[1] + f' [weights {wf}, num_knots {nks}, degree {ks}, N {len(x)}, M {len(z)}, knots_r/knots_c = '
+                     f'_spline_knots of x/z]', case)
+
+
+# -- pins (fail-closed) of the 2-D assembly statements
+def _fn(tree, cls, name):
+    import ast
+    body = tree.body
+    if cls:
+        body = [n for n in tree.body if isinstance(n, ast.ClassDef) and n.name == cls][0].body
+    return [n for n in body if isinstance(n, ast.FunctionDef) and n.name == name][0]
+
+
+def pin_btwb_2d(ctx):
+    """_face_splitting, SplineBasis2D._make_btwb and PSpline2D.solve must have exactly the statement shapes that
+    coq/C12/Btwb2D.v models: no extra branch, helper or name may take part in the assembly."""
+    import ast
+    import os
+    from .common import REPO
+    ob = 'pin:_face_splitting+SplineBasis2D._make_btwb+PSpline2D.solve(statement-shapes-of-the-modelled-assembly)'
+    ctx.obligations.append(ob)
+    flow = (ast.If, ast.IfExp, ast.BoolOp, ast.Compare, ast.Try, ast.While, ast.For, ast.With, ast.Match, ast.Lambda,
+            ast.ListComp, ast.GeneratorExp, ast.DictComp, ast.SetComp)
+    try:
+        t1 = ast.parse(open(os.path.join(REPO, 'pybaselines', 'two_d', '_spline_utils.py')).read())
+        t2 = ast.parse(open(os.path.join(REPO, 'pybaselines', 'two_d', '_whittaker_utils.py')).read())
+
+        def stmts(fn):
+            body = fn.body
+            if body and isinstance(body[0], ast.Expr) and isinstance(getattr(body[0], 'value', None), ast.Constant):
+                body = body[1:]
+            return body
+
+        # _face_splitting
+        fs = _fn(t2, None, '_face_splitting')
+        got = [ast.unparse(n) for n in stmts(fs)]
+        want = ['ones = np.ones((1, basis.shape[1]))', 'return kron(basis, ones).multiply(kron(ones, basis))']
+        if got != want:
+            raise ValueError(f'_face_splitting body is {got}')
+        # _make_btwb
+        mb = _fn(t1, 'SplineBasis2D', '_make_btwb')
+        body = stmts(mb)
+        bad = sorted({type(n).__name__ for st in body for n in ast.walk(st) if isinstance(n, flow)})
+        if bad:
+            raise ValueError(f'control flow / comparison in _make_btwb: {bad}')
+        names = {n.id for st in body for n in ast.walk(st) if isinstance(n, ast.Name)}
+        if not names <= {'self', 'weights', 'np', 'csr_object', 'F'}:
+            raise ValueError(f'_make_btwb uses unexpected names {sorted(names - {"self", "weights", "np", "csr_object", "F"})}')
+        if [type(st).__name__ for st in body] != ['Assign', 'Return'] or ast.unparse(body[1]) != 'return F':
+            raise ValueError(f'_make_btwb statements are {[ast.unparse(st)[:60] for st in body]}')
+        want_expr = ("csr_object(np.transpose((self._G_r.T @ weights @ self._G_c).reshape((self._num_bases[0], self._num_bases[0], "
+                     "self._num_bases[1], self._num_bases[1])), [0, 2, 1, 3]).reshape((np.prod(self._num_bases), "
+                     "np.prod(self._num_bases))))")
+        if ast.unparse(body[0].value) != want_expr:
+            raise ValueError(f'_make_btwb expression is {ast.unparse(body[0].value)}')
+        # PSpline2D.solve
+        sv = _fn(t1, 'PSpline2D', 'solve')
+        body = stmts(sv)
+        tests = [ast.unparse(n.test) for st in body for n in ast.walk(st) if isinstance(n, (ast.If, ast.IfExp, ast.While))]
+        if tests != ['penalty is None', 'rhs_extra is not None']:
+            raise ValueError(f'PSpline2D.solve branches on {tests}')
+        text = [ast.unparse(st) for st in body]
+        for need in ('rhs = (self.basis.basis_r.T @ (weights * y) @ self.basis.basis_c).ravel()',
+                     'self.coef = spsolve(self.basis._make_btwb(weights) + penalty, rhs)'):
+            if need not in text:
+                raise ValueError(f'PSpline2D.solve lacks the statement `{need}`')
+        ctx.discharged.append(ob)
+    except Exception as exc:  # noqa
+        ctx.broke(ob, f'2-D assembly no longer has the pinned shape: {exc}')
+
+
+HEADER_Z = """From Coq Require Import ZArith List Bool.
+From PB Require Import lib.CaseUtil C12.Num C12.Btwb2D.
+Import ListNotations.
+Open Scope Z_scope.
+"""
+
+OK_BTWB2D = """
+Definition ok (c : nat * nat * nat * nat * list (list Z) * list (list Z) * list (list Z) * list (list Z)) : bool :=
+  let '(M, Nn, P, Q, Br, W, Bc, exp) := c in
+  zll_eqb (tab2 (P * Q) (P * Q) (make_btwb Num_Z M Nn P Q (of_rows Br) (of_rows W) (of_rows Bc))) exp.
+Eval vm_compute in (bad ok cases).
+"""
+
+
+def zrows(a):
+    return '[' + '; '.join('[' + '; '.join(str(int(v)) if v >= 0 else f'({int(v)})' for v in r) + ']' for r in a) + ']'
+
+
+def correspondence_btwb_2d(ctx):
+    """Exact-integer tie of the Gallina model of _make_btwb (Z instance, evaluated inside Coq) to the real method, run on a
+    SplineBasis2D object whose two bases are small integer matrices (every product and sum is then exact in binary64)."""
+    from scipy import sparse
+    from pybaselines.two_d import _spline_utils as S2
+    from pybaselines.two_d._whittaker_utils import _face_splitting
+    rng = np.random.default_rng(ctx.seed + 3131)
+    ob = 'correspondence:SplineBasis2D._make_btwb-exact-integers-vs-model(all-weight-families)'
+    lits, metas = [], []
+    fams = ['ones', 'const-2', 'const-0', 'const-3', 'one-off', 'mask', 'random', 'separable', 'row-const', 'negative']
+    for c in range(ctx.n(60, 400)):
+        M, Nn = int(rng.integers(1, 6)), int(rng.integers(1, 6))
+        P, Q = int(rng.integers(1, 5)), int(rng.integers(1, 5))
+        Br = rng.integers(-2, 4, (M, P)).astype(float)
+        Bc = rng.integers(-2, 4, (Nn, Q)).astype(float)
+        fam = fams[c % len(fams)]
+        if fam == 'ones':
+            W = np.ones((M, Nn))
+        elif fam.startswith('const-'):
+            W = np.full((M, Nn), float(fam.split('-')[1]))
+        elif fam == 'one-off':
+            W = np.full((M, Nn), 2.0)
+            W[int(rng.integers(M)), int(rng.integers(Nn))] = 5.0
+        elif fam == 'mask':
+            W = rng.integers(0, 2, (M, Nn)).astype(float)
+        elif fam == 'separable':
+            W = np.outer(rng.integers(0, 4, M), rng.integers(0, 4, Nn)).astype(float)
+        elif fam == 'row-const':
+            W = np.repeat(rng.integers(0, 4, M)[:, None], Nn, axis=1).astype(float)
+        elif fam == 'negative':
+            W = rng.integers(-3, 4, (M, Nn)).astype(float)
+        else:
+            W = rng.integers(0, 5, (M, Nn)).astype(float)
+        case = {'kind': 'btwb2d-int', 'B_r': Br.tolist(), 'B_c': Bc.tolist(), 'weights': W.tolist(), 'weight_family': fam}
+        try:
+            sb = S2.SplineBasis2D.__new__(S2.SplineBasis2D)
+            sb.basis_r, sb.basis_c = sparse.csr_matrix(Br), sparse.csr_matrix(Bc)
+            sb._num_bases = (P, Q)
+            sb._G_r, sb._G_c = _face_splitting(sb.basis_r), _face_splitting(sb.basis_c)
+            F = sb._make_btwb(W)
+            F = F.toarray() if hasattr(F, 'toarray') else np.asarray(F)
+            if F.shape != (P * Q, P * Q) or not np.all(F == np.round(F)):
+                raise ValueError(f'result shape {F.shape} / non-integer entries')
+        except Exception as exc:  # noqa
+            ctx.broke(ob, f'_make_btwb on integer stand-in bases raised {type(exc).__name__}: {exc}')
+            ctx.fail('btwb2d:int:exception', f'_make_btwb raised {type(exc).__name__}: {exc} on integer bases', case)
+            continue
+        lits.append(f'({M}%nat, {Nn}%nat, {P}%nat, {Q}%nat, {zrows(Br)}, {zrows(W)}, {zrows(Bc)}, {zrows(F)})')
+        metas.append(case)
+        ctx.case(('btwb2d-int', fam, Br.tobytes(), Bc.tobytes(), W.tobytes()), nontrivial=M * Nn > 1 and P * Q > 1,
+                 kind=f'btwb2d-corr:{fam}')
+    ctx.obligations.append(ob)
+    bad = False
+    per = 120
+    for s0 in range(0, len(lits), per):
+        sh = lits[s0:s0 + per]
+        text = (HEADER_Z + '\nDefinition cases : list (nat * nat * nat * nat * list (list Z) * list (list Z) * list (list Z) * '
+                'list (list Z)) := [\n' + ';\n'.join(sh) + '\n].\n' + OK_BTWB2D)
+        vals = ctx.coq_eval(f'btwb2d{s0 // per}', text)
+        if vals is None:
+            bad = True
+            continue
+        v = vals[0] if vals else ''
+        if not v.startswith('(0'):
+            bad = True
+            import re
+            m = re.match(r'\((\d+)(?:%nat)?,\s*\[(.*)\]\)', v)
+            idx = [int(t.replace('%nat', '')) for t in (m.group(2).split(';') if m else []) if t.strip()]
+            ctx.broke(ob, f'_make_btwb differs from the verified model (coq/C12/Btwb2D.v, integer instance) on {v}')
+            for i in idx[:2]:
+                mc = metas[s0 + i]
+                ctx.fail('corr:btwb2d', 'SplineBasis2D._make_btwb on exact integer bases differs from the verified model of the face-splitting '
+                         f'assembly = (B_r kron B_c)\' W (B_r kron B_c) [weights {mc["weight_family"]}]', mc)
+    if not bad and ob not in [b[0] for b in ctx.broken]:
+        ctx.discharged.append(ob)
+    return bad
+
+
 def run(ctx):
     ctx.rule = ('penalized knot vectors from _spline_knots with num_knots 2..200, degree 0..6; x ranges ordinary, SCALED by 1e-15/1e-12/1e-9/1e-6/1e6/1e12/1e-300 '
                 '(and 1e-310, denormal, in the bit-exact cases) and OFFSET by +-1e6/+-1e12; x kinds '
@@ -846,12 +1130,15 @@ def run(ctx):
     ctx.gate()
     ok = ctx.build_props()
     pin_init_2d(ctx)
+    pin_btwb_2d(ctx)
     bad = correspondence(ctx)
     bad |= correspondence_2d(ctx)
+    bad |= correspondence_btwb_2d(ctx)
     budget = 1 if (ok and not bad and not ctx.broken and ctx.tier == 'quick') else 5
     oracle(ctx, budget)
     oracle_2d(ctx, budget)
-    ctx.note(f'oracle budget x{budget}; 2-D: SplineBasis2D construction (each side vs its own axis, _G_r/_G_c, full basis, _make_btwb vs dense Kronecker on small sizes) is oracle + bit-exact rows, the reshape/transpose algebra of _make_btwb is proved in C20 not here; NOT covered: _spline_knots(penalized=False) '
+    oracle_btwb_2d(ctx, budget)
+    ctx.note(f'oracle budget x{budget}; 2-D: SplineBasis2D construction (each side vs its own axis, _G_r/_G_c, full basis) is oracle + bit-exact rows + pin; _make_btwb is modelled and proved (C12_btwb_2d, C12_btwb_2d_separable), pinned, tied by exact integers and searched with 14 weight families incl. constant non-unit / near-constant; the 2-D penalty and solver belong to C20; NOT covered: _spline_knots(penalized=False) '
              'percentile knots only through hand-made clamped knot vectors, _basis_midpoints; values are compared with SciPy up to 1e-11, '
              'not bit-for-bit; theorems are exact-arithmetic (float rounding outside)')
 
@@ -872,6 +1159,29 @@ def replay(rep):
             err = f'solve_pspline raised {type(exc).__name__}: {exc}'
         print('replay btb:', err or 'property holds on this input')
         return 1 if err else 0
+    if kind == 'btwb2d':
+        try:
+            err = check_btwb_2d(np.array(case['x']), np.array(case['z']), tuple(case['num_knots']), tuple(case['degree']),
+                                np.array(case['weights']), np.array(case['y']), tuple(case.get('lam', (1.0, 1.0))))
+        except Exception as exc:  # noqa
+            err = f'2-D normal equations raised {type(exc).__name__}: {exc}'
+        print('replay btwb2d:', err or 'property holds on this input')
+        return 1 if err else 0
+    if kind == 'btwb2d-int':
+        from scipy import sparse
+        from pybaselines.two_d import _spline_utils as S2
+        from pybaselines.two_d._whittaker_utils import _face_splitting
+        Br, Bc, W = np.array(case['B_r']), np.array(case['B_c']), np.array(case['weights'])
+        sb = S2.SplineBasis2D.__new__(S2.SplineBasis2D)
+        sb.basis_r, sb.basis_c = sparse.csr_matrix(Br), sparse.csr_matrix(Bc)
+        sb._num_bases = (Br.shape[1], Bc.shape[1])
+        sb._G_r, sb._G_c = _face_splitting(sb.basis_r), _face_splitting(sb.basis_c)
+        F = sb._make_btwb(W)
+        F = F.toarray() if hasattr(F, 'toarray') else np.asarray(F)
+        B = np.kron(Br, Bc)
+        ok = np.array_equal(F, B.T @ (W.ravel()[:, None] * B))
+        print('replay btwb2d-int:', 'property holds on this input' if ok else '_make_btwb differs from (B_r kron B_c)\' W (B_r kron B_c) on exact integer input')
+        return 0 if ok else 1
     if kind == 'basis2d':
         try:
             err = check_basis_2d(np.array(case['x']), np.array(case['z']), tuple(case['num_knots']), tuple(case['degree']),
